@@ -156,7 +156,7 @@ def await_suspend_siblings(ctx, db, rid='C02.await-suspend-siblings'):
         ctx.paths(rid, len(trs))
         bad = None
         for tr in trs:
-            sub = [i for i, c in enumerate(tr) if c.k == 'call' and norm(c.get('callee') or '').endswith('::subscribe') and (c.get('recv') or '').endswith('_owner') and c.get('depth', 0) == 0]
+            sub = [i for i, c in enumerate(tr) if c.k == 'call' and norm(c.get('callee') or '').endswith('::subscribe') and (c.get('recv') or '').endswith('_owner')]
             res = [c for c in tr if c.k == 'call' and norm(c.get('callee')) in ('cocls::awaiter::resume',) and rooted(c.get('recv') or '', 'this')]
             if len(sub) != 1:
                 bad = bad or ('the awaited object is asked to register %d times' % len(sub), tr); continue
